@@ -56,8 +56,18 @@ def _model_accepts(pi, v) -> bool:
     man = _MAN["man"]
     if not man or pi.get("cls") not in (man.get("models") or {}):
         return True
-    req = {p["name"] for p in man["models"][pi["cls"]]["props"] if p["required"]}
-    return req <= set(v)
+    props = man["models"][pi["cls"]]["props"]
+    req = {p["name"] for p in props if p["required"]}
+    if not req <= set(v):
+        return False
+    # the values under the declared keys are of the declared kinds (one level: enough to tell members that share a key apart)
+    for p in props:
+        if p["name"] in v and v[p["name"]] is not None and p["kind"] not in ("AnyProperty", "ModelProperty", "UnionProperty"):
+            if pick_member([p], v[p["name"]]) is None:
+                return False
+        elif p["name"] in v and p["kind"] == "ModelProperty" and not isinstance(v[p["name"]], dict):
+            return False
+    return True
 
 
 def pick_member(inners: list, v):
